@@ -466,6 +466,25 @@ def best_effort(ctx, cfg, fs):
                     detail = '%s(%s, %s)' % (r.extra['op'], 'consumed' if a_new else 'best', 'consumed' if b_new else 'best')
                     if want is not None and s_ == sw.target(want):
                         strict = True
+    # what "consumed" means: items present in the attempt's window before it ran minus items present afterwards - both counted on the
+    # attempt's own state (a count taken on the caller's state includes everything LEFT of the window: later starts would look better)
+    meas = []
+    for c in upd:
+        for (a, s_) in b.control_deps().get(c.bb, ()):
+            sw = Switch(b, a)
+            for r in (sw.roots if sw.kind == 'bool' else []):
+                if r.kind == 'bin' and r.extra['op'] in ('Gt', 'Lt', 'Ge', 'Le'):
+                    for side in ('a', 'b'):
+                        for q in provenance(b, r.extra[side], r.site[0], r.site[1], through=None):
+                            if q.kind == 'bin' and q.extra['op'].startswith('Sub'):
+                                ids = []
+                                for k_ in ('a', 'b'):
+                                    rs = provenance(b, q.extra[k_], q.site[0], q.site[1], through=None)
+                                    ids.append({scopes.state_id(b, z.call.args[0], z.call.bb) if z.kind == 'call' and z.call.is_(r'^args::inner::State::len$') else '?' for z in rs})
+                                meas.append(ids)
+    same = bool(meas) and all(len(i0) == 1 and i0 == i1 and '?' not in i0 and 'args' not in i0 for (i0, i1) in meas)
+    ctx.ob('B.best-effort', 'ParseAdjacent::eval:consumed-measured-on-the-attempt', same,
+           'the progress of a failed attempt is len() before minus len() after, both on the attempt\'s own state (%s)' % [[sorted(map(str, x)) for x in m_] for m_ in meas], where=b.where(), cfg=cfg)
     ctx.ob('B.best-effort', 'ParseAdjacent::eval:ties-keep-earlier-attempt', strict and len(upd) == 1,
            'the best-effort state is replaced only by an attempt that consumed STRICTLY more (%s): %s' % (detail, strict), where=b.where(), cfg=cfg)
 
